@@ -329,7 +329,4 @@ def _short(x):
 
 
 def replay(path):
-    import json
-    d = json.load(open(path))
-    print(json.dumps(d["violations"][:3], indent=1)[:4000])
-    return 1
+    return C.generic_replay(path)
